@@ -342,9 +342,14 @@ structure WF (sh : Shape) (cfg : Cfg) : Prop where
   k_pos : 1 ≤ sh.k
   lens_len : cfg.lens.length = cfg.nProofs
 
-/-- Proof length in bytes (compressed G1 = 48 bytes, scalar = 32 bytes). -/
+/-- Encoded size of a proof element (compressed G1 = 48 bytes, scalar = 32 bytes). -/
+def elemBytes : Ty → Nat
+  | .G => 48
+  | .F => 32
+
+/-- Proof length in bytes. -/
 def proofLen (sh : Shape) (cfg : Cfg) : Nat :=
   ((verifierSchedule sh cfg).filter (fun e => e.kind = .elem)).foldl
-    (fun acc e => acc + (match e.ty with | .G => 48 | .F => 32)) 0
+    (fun acc e => acc + elemBytes e.ty) 0
 
 end MidnightZK.C01
